@@ -200,6 +200,10 @@ func (s *StorageClient) Get(key string) (*mc.Item, error) {
 func (s *StorageClient) GetMulti(keys []string) (map[string]*mc.Item, error) {
 	ret := make(map[string]*mc.Item)
 	for _, key := range keys {
+		if _, ok := ret[key]; ok {
+			// a repeated key: the copy already fetched is the one that gets released
+			continue
+		}
 		item, _ := s.Get(key)
 		if item != nil {
 			ret[key] = item
